@@ -1,4 +1,4 @@
-import NomtModel.Store.ExtRangeInit
+import NomtModel.Store.ExtRangePhase
 import NomtModel.Store.ExtRangeToy
 /-!
 # C13 — the multi-worker split of the beatree update and its extend-range protocol
@@ -80,6 +80,52 @@ theorem T13_no_deadlock {σ N C : Type} (U : Upd σ N C) (cfg : Cfg) (hs : cfg.s
 theorem T13_deferred_request_answered {N : Type} (inner : Inner N) (low high right : Option Nat) :
     answer inner low high right true ≠ none := answer_fin inner low high right
 
+/-- **T13.answer_stable** — the core of schedule independence: an answer that can be given from a tracker (before the
+worker has finished) is the answer given from ANY later tracker that has the same entries followed by more — finished or
+not — and the additional entries stay with the responder.  So it does not matter at which of its polls a worker answers a
+request, provided the entries it produces later come behind the ones it has (`T13_tracker_keys_ascend_every_schedule`). -/
+theorem T13_answer_stable {N : Type} (inner ext : Inner N) (low high right : Option Nat) (fin : Bool) (resp : Resp N)
+    (inner' : Inner N) (relink : Bool) (h : answer inner low high right false = some (resp, inner', relink)) :
+    answer (inner ++ ext) low high right fin = some (resp, inner' ++ ext, relink) :=
+  answer_stable inner ext low high right fin resp inner' relink h
+
+/-- **T13.tracker_keys_ascend_every_schedule** — for every updater that satisfies the key laws `KeyLaws` (the separators one
+`digest` emits lie below the bound `lb` of the state it leaves, and no call lowers `lb` — the per-call form of "separators
+ascend", `T1_*_separators_chain` for the real updaters along one worker's run), for every level, change list, worker count
+and EVERY interleaving: in every state reached, every produced node a worker holds sits in its tracker under a separator
+below `lb` of its updater, and in every response in flight only the last entry carries a node.  Hence `NodesTracker::insert`
+never replaces a produced node (the next separators are `≥ lb`), and what a worker appends to its tracker later lies behind
+its produced nodes — the premise of `T13_answer_stable`. -/
+theorem T13_tracker_keys_ascend_every_schedule {σ N C : Type} (U : Upd σ N C) (lb : σ → Nat) (KL : KeyLaws U lb) (cfg : Cfg)
+    (hs : cfg.staleHigh = false) (hm : cfg.highMax = false) (db : List (DbN N)) (cs : List (Nat × C))
+    (look : Nat → Option Nat) (hlook : ∀ k s, look k = some s → s ≤ k) (hasc : Asc (cs.map (·.1))) (hne : cs ≠ [])
+    (count : Nat) (s : List Nat) :
+    match runSched U cfg db s (initG U cfg db cs (prepareWorkers look (cs.map (·.1)) count)) with
+    | .inr g' => KInv lb g'
+    | .inl _ => True := by
+  have hc := (T13_prepare_workers_partition look hlook (cs.map (·.1)) hasc (by simpa using hne) count).1
+  exact kinv_runSched KL cfg db hs hm s _ (inv_init U cfg db cs (cs.map (·.1)) _ none 0 false hc)
+    (kinv_init U lb cfg db cs _)
+
+/-- **T13.no_extension_in_scope_loop_every_schedule** — for every updater with the scope laws (`is_in_scope(k)` = "`k` below
+the cutoff"; `NeedsMerge(c)` returns the cutoff), every level, change list, worker count and EVERY interleaving: in every
+state reached (`PInv`) the remaining ops of every worker and the key it is about to hand to `reset_*_base` inside the
+`while !is_in_scope(key)` loop are below its `range.high`, the program point "waiting for a response inside the scope loop"
+is never reached, and a worker that has entered the final merge loop has no ops left.  So the range-extension branch of the
+scope loop of both `run_worker`s is dead code, extensions happen in the final merge loop only, and a worker never polls its
+left neighbour after it has extended its range: the answers it gives in the scope loop are computed from nodes of its own
+initial range only. -/
+theorem T13_no_extension_in_scope_loop_every_schedule {σ N C : Type} (U : Upd σ N C) (cutoffOf : σ → Option Nat)
+    (SL : ScopeLaws U cutoffOf) (cfg : Cfg) (hs : cfg.staleHigh = false) (hm : cfg.highMax = false) (db : List (DbN N))
+    (cs : List (Nat × C)) (look : Nat → Option Nat) (hlook : ∀ k s, look k = some s → s ≤ k) (hasc : Asc (cs.map (·.1)))
+    (hne : cs ≠ []) (count : Nat) (s : List Nat) :
+    match runSched U cfg db s (initG U cfg db cs (prepareWorkers look (cs.map (·.1)) count)) with
+    | .inr g' => PInv g'
+    | .inl _ => True := by
+  have hc := (T13_prepare_workers_partition look hlook (cs.map (·.1)) hasc (by simpa using hne) count).1
+  exact pinv_runSched SL cfg db hs hm s _ (inv_init U cfg db cs (cs.map (·.1)) _ none 0 false hc)
+    (pinv_init U cfg db cs _ none 0 false hc)
+
 /-- FULL statement wanted (NOT proved in general): for every updater, level, change list and worker count the level the
 stage produces is the same for every two complete schedules. -/
 def ScheduleIndependent {σ N C : Type} (U : Upd σ N C) (cfg : Cfg) (db : List (DbN N)) (cs : List (Nat × C))
@@ -125,6 +171,41 @@ theorem T13_seeded_high_max_counterexample :
   refine ⟨?_, ?_, ?_⟩ <;> decide +kernel
 
 /-! ## non-vacuity -/
+
+/-- the toy updater satisfies the scope laws -/
+example : ScopeLaws Toy.upd (fun st => st.cutoff) := by
+  refine ⟨fun st k => rfl, ?_⟩
+  intro st st' outs c h
+  simp only [Toy.upd, Toy.digest] at h
+  split at h
+  · cases h
+  · split at h
+    · split at h
+      · cases h
+      · split at h
+        · cases h
+        · split at h
+          · rename_i c' hc; simp only [Option.some.injEq, Prod.mk.injEq] at h; rw [hc]; exact congrArg some h.2.2
+          · cases h
+    · split at h
+      · cases h
+      · split at h
+        · rename_i c' hc; simp only [Option.some.injEq, Prod.mk.injEq] at h; rw [hc]; exact congrArg some h.2.2
+        · cases h
+
+/-- an updater that satisfies the key laws: it emits one node per `digest`, under the next free separator -/
+example : KeyLaws (σ := Nat) (N := Unit) (C := Unit)
+    { init := 0, inScope := fun _ _ => true, resetBase := fun st _ _ => st, removeCutoff := fun st => st,
+      ingest := fun st _ _ => some st, digest := fun st => some (st + 1, [(st, (), none)], none) } (fun st => st) := by
+  refine ⟨?_, fun _ _ _ => Nat.le_refl _, fun _ => Nat.le_refl _, ?_⟩
+  · intro st st' outs r h
+    simp only [Option.some.injEq, Prod.mk.injEq] at h
+    obtain ⟨h1, h2, _⟩ := h
+    subst h1 h2
+    exact ⟨fun o ho => by simp at ho; subst ho; exact Nat.lt_succ_self _, Nat.le_succ _⟩
+  · intro st k c st' h
+    simp only [Option.some.injEq] at h; subst h; exact Nat.le_refl _
+
 
 /-- `prepare_workers` on the toy level: two workers, adjacent at the separator 20 -/
 example : prepareWorkers (Toy.look (Toy.mkDb Toy.lvlA)) (Toy.csA.map (·.1)) 2 =
